@@ -60,6 +60,17 @@ fn load_rom(rom_file_name: String) -> Option<emulator::Core> {
     return None;
   }
 
+  // The whole declared ROM size gets mapped; a shorter file would fault (SIGBUS)
+  // as soon as the guest touched a page beyond its end.
+  let declared_size = header.get_rom_size_bytes() as u64;
+  match rom_file.metadata() {
+    Ok(meta) if meta.len() >= declared_size => (),
+    _ => {
+      println!("ROM file is truncated: it is smaller than the ROM size declared in its header");
+      return None;
+    },
+  }
+
   println!("Loading \"{}\"", header.get_title());
 
   Some(emulator::Core::from_rom_file(&mut rom_file, header))
